@@ -10,7 +10,7 @@
      Pwrite.v   file_write of linux/platform.c as a loop over an operating system that answers every pwrite with any
                 count 0..remaining or an error;
      FdTable.v  the descriptor table (lowest free number), a flat file system, create / write scripts, the system-call
-                log, file_create / file_close / file_write / file_is_writable;
+                log, file_create (open, flock, ftruncate -- each may fail) / file_close / file_write / file_is_writable;
      Raw.v      raw_set / raw_start / raw_append / raw_stop / raw_destroy;   Hal.v  the HAL storage_* wrappers, histories.
    A packet is an arbitrary byte string: frame headers and pixel bytes are not interpreted by raw.c, so "every frame-size
    sequence and every grouping of frames into packets" is "every list of byte strings".
@@ -64,7 +64,7 @@ Theorem Pwrite_true :
 Proof. exact file_write1_true. Qed.
 Print Assumptions Pwrite_true.
 
-(* the error NUMBER of a failing pwrite (EIO, ENOSPC, EAGAIN, EINTR, EBADF) does not matter: two scripts that fail the
+(* the error NUMBER of a failing pwrite (EIO, ENOSPC, EAGAIN, EINTR, EBADF, EINVAL) does not matter: two scripts that fail the
    same calls with different numbers leave the same file, consume the same calls and give the same return value *)
 Theorem Pwrite_errno_irrelevant :
   forall ws ws', errno_variant ws ws' ->
@@ -173,11 +173,11 @@ Example C14_exact_example :
     fs o' "a.raw" = Some (bytes_of [1; 2; 3; 4; 5]) /\ fs o' "b.raw" = Some (bytes_of [6; 7]) /\
     trace o' =
       [EOpen "a.raw" (Some 3); EClose (Some 3) true;                       (* set: writability probe *)
-       EOpen "a.raw" (Some 3); ELock 3 true;                               (* start *)
+       EOpen "a.raw" (Some 3); ELock 3 true; ETrunc 3 true;                               (* start *)
        EWrite (Some 3) 0 3 (Some 1); EWrite (Some 3) 1 2 (Some 0); EWrite (Some 3) 1 2 (Some 2);
        EWrite (Some 3) 3 2 (Some 2);
        EClose (Some 3) true;                                               (* stop *)
-       EOpen "b.raw" (Some 3); EClose (Some 3) true; EOpen "b.raw" (Some 3); ELock 3 true;
+       EOpen "b.raw" (Some 3); EClose (Some 3) true; EOpen "b.raw" (Some 3); ELock 3 true; ETrunc 3 true;
        EWrite (Some 3) 0 2 (Some 0); EWrite (Some 3) 0 2 (Some 0); EWrite (Some 3) 0 2 (Some 2);
        EClose (Some 3) true].
 Proof.
